@@ -457,16 +457,25 @@ variable {α : Type} [Add α] [Sub α] [Neg α] [Mul α] [Zero α] [One α] [Con
 
 def sumL (l : List α) : α := l.foldr (· + ·) 0
 
+/-- the first `2^n` amplitudes as a list -/
+def vecL (n : Nat) (u : Nat → α) : List α := (List.range (2 ^ n)).map u
+
+/-- `Σ conj(x_i) y_i` -/
+def dotL (x y : List α) : α := sumL (List.zipWith (fun a b => conj a * b) x y)
+
 /-- `Σ_{i<2^n} conj(u_i) v_i` (`code_conj @ q0.T`, one entry) -/
-def ipL (n : Nat) (u v : Nat → α) : α := sumL ((List.range (2 ^ n)).map fun i => conj (u i) * v i)
+def ipL (n : Nat) (u v : Nat → α) : α := dotL (vecL n u) (vecL n v)
 
 /-- `tmp0[a,b] = ⟨c_a| P |c_b⟩` -/
 def matEl (I : α) (n : Nat) (p : MP) (u v : Nat → α) : α := ipL n u (pauliAct I p v)
 
-/-- the two increments for one Pauli operator: `(|trace(tmp0)|², vdot(tmp0, tmp0))` -/
+/-- the two increments for one Pauli operator: `(|trace(tmp0)|², vdot(tmp0, tmp0))`, `tmp0[a,b] = matEl a b`
+(the images `P c_b` are listed once per operator) -/
 def enumTerm (I : α) (n : Nat) (cw : List (Nat → α)) (p : MP) : α × α :=
-  let tr := sumL (cw.map fun a => matEl I n p a a)
-  (conj tr * tr, sumL (cw.map fun a => sumL (cw.map fun b => let m := matEl I n p a b; conj m * m)))
+  let us := cw.map (vecL n)
+  let imgs := cw.map fun b => vecL n (pauliAct I p b)
+  let tr := sumL ((us.zip imgs).map fun ui => dotL ui.1 ui.2)
+  (conj tr * tr, sumL (us.map fun u => sumL (imgs.map fun im => let m := dotL u im; conj m * m)))
 
 /-- the operators of weight `w + 1` in the order of the two generators
 (`combinations(range(n), weight)` × `product([X,Y,Z], repeat=weight)`) -/
@@ -518,6 +527,8 @@ def klLossL1Radicands (E K : Nat) (M : Nat → Nat → Nat → QI) : List Rat :=
 
 /-- the tabulated model code words as functions (driver) -/
 def codewordFns (c : Code) : List (Nat → GInt) :=
-  (List.range c.K).map fun a => ofArray (codewordTab c a)
+  -- the arrays are materialised first, so that every closure captures an evaluated array
+  let arrs := (List.range c.K).map (codewordTab c)
+  arrs.map ofArray
 
 end Numqi.Qec
